@@ -309,6 +309,11 @@ func (s *Store) Eq(a, b *Term) *Term {
 	if a.S != b.S {
 		panic(fmt.Sprintf("Eq sort mismatch %v %v", a.S, b.S))
 	}
+	if a.S.K == KReal {
+		if d, ok := linDiffConst(a, b); ok {
+			return s.Bool(d.Sign() == 0)
+		}
+	}
 	switch a.S.K {
 	case KFP:
 		return s.app("fp.eq", SBool, a, b)
@@ -688,6 +693,17 @@ func (s *Store) RealArith(op string, a, b *Term) (*Term, bool) {
 	if !checkExact(lo, hi, sc) {
 		return nil, false
 	}
+	if lo.Cmp(hi) == 0 {
+		// the bounds pin the value
+		t := s.RealConst(lo)
+		if t.ri == nil {
+			t.ri = &realInfo{lo: t.R, hi: t.R, s: 0, exact: true}
+			if !t.R.IsInt() {
+				t.ri.s = t.R.Denom().BitLen() - 1
+			}
+		}
+		return t, true
+	}
 	t := s.app(op, SReal, a, b)
 	if t.ri == nil {
 		if t.Op == "realconst" {
@@ -742,10 +758,79 @@ func (s *Store) RealNeg(a *Term) *Term {
 }
 
 func (s *Store) RealCmp(op string, a, b *Term) *Term {
+	// decide comparisons whose difference is a constant (translations)
+	if d, ok := linDiffConst(a, b); ok {
+		sg := d.Sign() // sign of a-b
+		switch op {
+		case "<":
+			return s.Bool(sg < 0)
+		case "<=":
+			return s.Bool(sg <= 0)
+		case "=":
+			return s.Bool(sg == 0)
+		}
+	}
 	if op == "=" {
 		return s.Eq(a, b)
 	}
 	return s.app(op, SBool, a, b)
+}
+
+// linForm: t as a linear form over non-linear atoms; ok=false if too large.
+func linForm(t *Term, scale *big.Rat, acc map[*Term]*big.Rat, c *big.Rat, depth int) bool {
+	if depth > 40 {
+		return false
+	}
+	switch t.Op {
+	case "realconst":
+		c.Add(c, new(big.Rat).Mul(scale, t.R))
+		return true
+	case "+":
+		return linForm(t.Args[0], scale, acc, c, depth+1) && linForm(t.Args[1], scale, acc, c, depth+1)
+	case "-":
+		if len(t.Args) == 1 {
+			return linForm(t.Args[0], new(big.Rat).Neg(scale), acc, c, depth+1)
+		}
+		return linForm(t.Args[0], scale, acc, c, depth+1) && linForm(t.Args[1], new(big.Rat).Neg(scale), acc, c, depth+1)
+	case "*":
+		if t.Args[0].Op == "realconst" {
+			return linForm(t.Args[1], new(big.Rat).Mul(scale, t.Args[0].R), acc, c, depth+1)
+		}
+		if t.Args[1].Op == "realconst" {
+			return linForm(t.Args[0], new(big.Rat).Mul(scale, t.Args[1].R), acc, c, depth+1)
+		}
+	case "/":
+		if t.Args[1].Op == "realconst" && t.Args[1].R.Sign() != 0 {
+			return linForm(t.Args[0], new(big.Rat).Quo(scale, t.Args[1].R), acc, c, depth+1)
+		}
+	}
+	if len(acc) > 64 {
+		return false
+	}
+	if old, ok := acc[t]; ok {
+		acc[t] = new(big.Rat).Add(old, scale)
+	} else {
+		acc[t] = new(big.Rat).Set(scale)
+	}
+	return true
+}
+
+// linDiffConst: a-b is a constant (as linear forms over the same atoms).
+func linDiffConst(a, b *Term) (*big.Rat, bool) {
+	if a.S.K != KReal || b.S.K != KReal {
+		return nil, false
+	}
+	acc := map[*Term]*big.Rat{}
+	c := new(big.Rat)
+	if !linForm(a, big.NewRat(1, 1), acc, c, 0) || !linForm(b, big.NewRat(-1, 1), acc, c, 0) {
+		return nil, false
+	}
+	for _, k := range acc {
+		if k.Sign() != 0 {
+			return nil, false
+		}
+	}
+	return c, true
 }
 
 // InexactVar is the result of an operation on the exact domain that is not
